@@ -11,6 +11,10 @@ package main
 //	lcs <A> <B> <e> <egf> <fill>     FastLCSEGFScoreByte(A, B, e, egf, buffer); fill = n (nil buffer) or a decimal
 //	                                 uint64: a pre-allocated buffer of capacity 2*width filled with that word
 //	                                                                                 -> "score length end"
+//	lcsseq <A B e egf>...            a HISTORY of calls on ONE scratch buffer (empty at the start of the case, then
+//	                                 whatever the previous calls of the history left / re-allocated), as the callers
+//	                                 in obiclean / obitag / obirefidx do; every call is compared with the same call
+//	                                 on a fresh buffer                               -> "s,l,end s,l,end ..."
 //	d1 <A> <B>                       D1Or0 on two BioSequences                       -> "verdict pos a1 a2"
 //	lcsall <A> <maxlen> <e> <egf>    every B over {a,c,g,t} of length <= maxlen (canonical order) against A
 //	                                                                                 -> "count checksum"
@@ -259,6 +263,84 @@ func (c09) Gen(rng *rand.Rand, tier string, emit func(string)) {
 	} {
 		emit(c)
 	}
+	// ---- histories of calls on one scratch buffer ---------------------------------------------------------------
+	// The buffer is re-allocated (3*width) only when cap < 2*width, so what a call finds depends on the ORDER of
+	// the previous calls: narrow band then wide band (kept iff 2*width <= 3*width_prev), wide then narrow (stale
+	// cells beyond the new rows and inside them), long pair then short pair (stale anti-diagonals), no bound
+	// (huge band) then small bounds, early returns in between.
+	seqItem := func(a, b []byte, e int, egf int) string {
+		return fmt.Sprintf("%s %s %d %d", hx(a), hx(b), e, egf)
+	}
+	// deterministic ladder: for every bound e, a pair whose length difference is e (narrowest band: width 2e+5)
+	// followed by an equal-length pair with the same bound (widest: 4e+5), then back, both orders, both modes
+	for e := 0; e <= 14; e++ {
+		for egf := 0; egf <= 1; egf++ {
+			long := c09RandSeq(rng, 24+e, 0)
+			short := append([]byte{}, long[:24]...)             // e trailing deletions: delta = e
+			sub := c09Mutate(rng, long, 0, 0)                   // equal lengths, up to 2 substitutions
+			sub[3] = "acgt"[(strings.IndexByte("acgt", sub[3])+1)%4]
+			sub[len(sub)-2] = "acgt"[(strings.IndexByte("acgt", sub[len(sub)-2])+2)%4]
+			narrow := seqItem(long, short, e, egf)
+			wide := seqItem(long, sub, e, egf)
+			emit("lcsseq " + narrow + " " + wide)
+			emit("lcsseq " + wide + " " + narrow + " " + wide)
+			emit("lcsseq " + narrow + " " + narrow + " " + wide + " " + seqItem(short, short, e, egf) + " " + wide)
+		}
+	}
+	nhist := 700
+	if thorough {
+		nhist = 4000
+	}
+	for h := 0; h < nhist; h++ {
+		ncalls := 2 + rng.Intn(6)
+		maxlen := []int{6, 14, 40, 90}[rng.Intn(4)]
+		var items []string
+		for c := 0; c < ncalls; c++ {
+			la := rng.Intn(maxlen + 1)
+			if rng.Intn(5) == 0 {
+				la = rng.Intn(7) // long pair then short pair
+			}
+			rate := []int{0, 0, 8}[rng.Intn(3)]
+			a := c09RandSeq(rng, la, rate)
+			var b []byte
+			var e int
+			switch rng.Intn(6) {
+			case 0: // independent sequence
+				b = c09RandSeq(rng, rng.Intn(la+3), rate)
+				e = rng.Intn(la + 2)
+			case 1: // pure length difference delta, bound = delta + 0..2 (narrow bands)
+				d := rng.Intn(la + 1)
+				if d > 12 {
+					d = rng.Intn(13)
+				}
+				p := rng.Intn(la - d + 1)
+				b = append(append([]byte{}, a[:p]...), a[p+d:]...)
+				e = d + rng.Intn(3)
+			default:
+				k := rng.Intn(5)
+				b = c09Mutate(rng, a, k, rate)
+				e = k - 1 + rng.Intn(4)
+				if e < 0 {
+					e = 0
+				}
+			}
+			switch rng.Intn(8) {
+			case 0:
+				e = -1 // no bound: the widest band of all
+			case 1:
+				e = rng.Intn(16)
+			}
+			if rng.Intn(2) == 0 {
+				a, b = b, a
+			}
+			egf := 0
+			if rng.Intn(4) == 0 {
+				egf = 1
+			}
+			items = append(items, seqItem(a, b, e, egf))
+		}
+		emit("lcsseq " + strings.Join(items, " "))
+	}
 	// ---- exhaustive small pairs over {a,c,g,t} --------------------------------------------------------------
 	maxl := 3
 	if thorough {
@@ -404,13 +486,28 @@ func (c09) Gen(rng *rand.Rand, tier string, emit func(string)) {
 
 type c09Failer func(sig, format string, a ...any)
 
-// c09LCS runs the real kernel once with the requested buffer mode.
-func c09Call(a, b []byte, e int, egf bool, fill string) (int, int, int) {
+// c09Kernel runs the real kernel once on the given buffer pointer; a Go panic inside the kernel is returned as
+// text (pan != "") so that the caller can report the concrete input instead of losing the whole case.
+func c09Kernel(a, b []byte, e int, egf bool, buf *[]uint64) (s, l, end int, pan string) {
+	defer func() {
+		if r := recover(); r != nil {
+			if _, isFatal := r.(fatalExit); isFatal {
+				panic(r)
+			}
+			s, l, end, pan = -99, -99, -99, fmt.Sprint(r)
+		}
+	}()
+	s, l, end = obialign.FastLCSEGFScoreByte(a, b, e, egf, buf)
+	return
+}
+
+// c09Call runs the real kernel once with the requested buffer mode.
+func c09Call(a, b []byte, e int, egf bool, fill string) (int, int, int, string) {
 	if fill == "n" {
-		return obialign.FastLCSEGFScoreByte(a, b, e, egf, nil)
+		return c09Kernel(a, b, e, egf, nil)
 	}
 	if fill == "reused" {
-		return obialign.FastLCSEGFScoreByte(a, b, e, egf, &c09Reused)
+		return c09Kernel(a, b, e, egf, &c09Reused)
 	}
 	v, _ := strconv.ParseUint(fill, 10, 64)
 	w := c09Width(len(a), len(b), e, egf)
@@ -418,7 +515,7 @@ func c09Call(a, b []byte, e int, egf bool, fill string) (int, int, int) {
 	for i := range buf {
 		buf[i] = v
 	}
-	return obialign.FastLCSEGFScoreByte(a, b, e, egf, &buf)
+	return c09Kernel(a, b, e, egf, &buf)
 }
 
 // c09CheckLCS: the oracle for one pair; (s, l, end) is what the real code returned for (a, b, e, egf).
@@ -429,15 +526,21 @@ func c09CheckLCS(a, b []byte, e int, egf bool, fill string, s, l, end int, fail 
 		if m == fill {
 			continue
 		}
-		s2, l2, end2 := c09Call(a, b, e, egf, m)
-		if s2 != s || l2 != l || end2 != end {
+		capBefore := cap(c09Reused)
+		s2, l2, end2, pan := c09Call(a, b, e, egf, m)
+		if pan != "" {
+			fail("lcs.panic.buffer", "%s: no answer with buffer %s (cap %d before the call, width %d): panic: %s; buffer %s gives (%d,%d,%d)",
+				pair, m, capBefore, c09Width(len(a), len(b), e, egf), pan, fill, s, l, end)
+		} else if s2 != s || l2 != l || end2 != end {
 			fail("lcs.buffer-dependence", "%s: buffer %s gives (%d,%d,%d), buffer %s gives (%d,%d,%d)", pair, fill, s, l, end, m, s2, l2, end2)
 		}
 	}
 	// symmetry of score and length
 	if !egf || len(a) != len(b) {
-		s2, l2, _ := c09Call(b, a, e, egf, "n")
-		if s2 != s || l2 != l {
+		s2, l2, _, pan := c09Call(b, a, e, egf, "n")
+		if pan != "" {
+			fail("lcs.panic.swapped", "%s: no answer for (B,A): panic: %s", pair, pan)
+		} else if s2 != s || l2 != l {
 			fail("lcs.asymmetric", "%s: (A,B) gives (%d,%d), (B,A) gives (%d,%d)", pair, s, l, s2, l2)
 		}
 	}
@@ -587,9 +690,63 @@ func (c09) Exec(c string) (string, []Fail) {
 			}
 			egf := f[4] == "1"
 			stat("lcs:fill-" + map[bool]string{true: "nil", false: "poisoned"}[f[5] == "n"])
-			s, l, end := c09Call(a, b, e, egf, f[5])
+			s, l, end, pan := c09Call(a, b, e, egf, f[5])
+			if pan != "" {
+				fail("lcs.panic", "A=%q B=%q e=%d egf=%v buffer %s: the kernel gives no answer: panic: %s", a, b, e, egf, f[5], pan)
+				return "panic"
+			}
 			c09CheckLCS(a, b, e, egf, f[5], s, l, end, fail)
 			return fmt.Sprintf("%d %d %d", s, l, end)
+		case f[0] == "lcsseq" && len(f) >= 5 && (len(f)-1)%4 == 0:
+			type call struct {
+				a, b []byte
+				e    int
+				egf  bool
+			}
+			var calls []call
+			for k := 1; k+3 < len(f); k += 4 {
+				a, ok1 := unhx(f[k])
+				b, ok2 := unhx(f[k+1])
+				e, err := strconv.Atoi(f[k+2])
+				if !ok1 || !ok2 || err != nil || e < -1 || (f[k+3] != "0" && f[k+3] != "1") {
+					return "bad-op"
+				}
+				calls = append(calls, call{a, b, e, f[k+3] == "1"})
+			}
+			buf := []uint64{} // the ONE scratch buffer of this history
+			var out []string
+			for k, c := range calls {
+				capBefore := cap(buf)
+				w := c09Width(len(c.a), len(c.b), c.e, c.egf)
+				switch {
+				case w == 0:
+					stat("lcsseq:call:early-return")
+				case capBefore < 2*w:
+					stat("lcsseq:call:buffer-regrown")
+				case capBefore >= 6*w:
+					stat("lcsseq:call:buffer-kept(cap >= 6*width)")
+				default:
+					stat("lcsseq:call:buffer-kept")
+				}
+				s, l, end, pan := c09Kernel(c.a, c.b, c.e, c.egf, &buf)
+				what := fmt.Sprintf("call %d of the history A=%q B=%q e=%d egf=%v (width %d, shared buffer cap %d before the call)", k+1, c.a, c.b, c.e, c.egf, w, capBefore)
+				if pan != "" {
+					fail("lcsseq.panic", "%s: the kernel gives no answer: panic: %s", what, pan)
+					out = append(out, "panic")
+					break
+				}
+				s0, l0, end0, pan0 := c09Kernel(c.a, c.b, c.e, c.egf, nil)
+				if pan0 != "" {
+					fail("lcsseq.panic-fresh", "%s: panic with a fresh buffer: %s", what, pan0)
+				} else if s0 != s || l0 != l || end0 != end {
+					fail("lcsseq.buffer-dependence", "%s: (%d,%d,%d) on the shared buffer, (%d,%d,%d) on a fresh one", what, s, l, end, s0, l0, end0)
+				}
+				if len(c.a)+len(c.b) <= 200 {
+					c09CheckLCS(c.a, c.b, c.e, c.egf, "n", s0, l0, end0, fail)
+				}
+				out = append(out, fmt.Sprintf("%d,%d,%d", s, l, end))
+			}
+			return strings.Join(out, " ")
 		case f[0] == "d1" && len(f) == 3:
 			x, ok1 := unhx(f[1])
 			y, ok2 := unhx(f[2])
@@ -618,12 +775,25 @@ func (c09) Exec(c string) (string, []Fail) {
 			egf := f[4] == "1"
 			var sum uint64
 			n := 0
+			panicked := false
 			c09Words(ml, func(b []byte) {
-				s, l, end := obialign.FastLCSEGFScoreByte(a, b, e, egf, &c09Reused)
+				if panicked {
+					return
+				}
+				capBefore := cap(c09Reused)
+				s, l, end, pan := c09Kernel(a, b, e, egf, &c09Reused)
+				if pan != "" {
+					fail("lcs.panic", "A=%q B=%q e=%d egf=%v reused buffer (cap %d before the call): the kernel gives no answer: panic: %s", a, b, e, egf, capBefore, pan)
+					panicked = true
+					return
+				}
 				c09CheckLCS(a, b, e, egf, "reused", s, l, end, fail)
 				sum = (sum*1000003 + uint64(s+1)*10007 + uint64(l+1)*101 + uint64(end+1)) % 2305843009213693951
 				n++
 			})
+			if panicked {
+				return "panic"
+			}
 			return fmt.Sprintf("%d %d", n, sum)
 		case f[0] == "d1all" && len(f) == 3:
 			a, ok := unhx(f[1])
